@@ -193,6 +193,38 @@ func counterOrigins(c *core.Ctx, b c03.MBody, v *types.Var, depth int) (out []*c
 		return []*counter{{obj: v, in: b, decl: b.Decl}}, false
 	}
 	idx := paramIndex(info, b.Decl, v)
+	if idx < 0 && depth > 0 {
+		// a pointer-typed local: `p := &counter` or a copy of another pointer
+		var ref *ast.Ident
+		core.InspectAll(b.Decl.Body, func(m ast.Node) bool {
+			if id, ok := m.(*ast.Ident); ok && ref == nil && core.ObjOf(info, id) == types.Object(v) {
+				ref = id
+			}
+			return true
+		})
+		if ref != nil {
+			if o, ok := c03.SoleOrigin(info, b.Decl, ref); ok && o.Expr != nil && o.Op == 0 && !o.Range && o.Res <= 0 && ast.Unparen(o.Expr) != ast.Expr(ref) {
+				if w := baseVar(info, o.Expr); w != nil && w != v {
+					return counterOrigins(c, b, w, depth-1)
+				}
+				// `p := new(atomic2.Int64)` / `p := &atomic2.Int64{}`: the pointer variable is the counter
+				fresh := false
+				switch x := ast.Unparen(o.Expr).(type) {
+				case *ast.CallExpr:
+					if bi, ok := core.Callee(info, x).(*types.Builtin); ok && bi.Name() == "new" {
+						fresh = true
+					}
+				case *ast.UnaryExpr:
+					if _, isLit := ast.Unparen(x.X).(*ast.CompositeLit); isLit && x.Op == token.AND {
+						fresh = true
+					}
+				}
+				if fresh {
+					return []*counter{{obj: v, in: b, decl: b.Decl}}, false
+				}
+			}
+		}
+	}
 	if idx < 0 || b.Lit != nil || depth == 0 {
 		return nil, true
 	}
@@ -215,10 +247,11 @@ func counterOrigins(c *core.Ctx, b c03.MBody, v *types.Var, depth int) (out []*c
 // loopAround reports whether node (in body b) executes repeatedly: it lies in
 // a loop of b that does not enclose pos, or b is a function whose call sites do.
 func loopAround(c *core.Ctx, b c03.MBody, node ast.Node, pos token.Pos, depth int) bool {
-	for _, pn := range core.PathTo(b.Decl.Body, node) {
+	path := core.PathTo(b.Decl.Body, node)
+	for i, pn := range path {
 		switch l := pn.(type) {
 		case *ast.ForStmt, *ast.RangeStmt:
-			if l != node && !(l.Pos() <= pos && pos < l.End()) {
+			if l != node && !(l.Pos() <= pos && pos < l.End()) && !c03.RunsOnce(path, i) {
 				return true
 			}
 		}
@@ -413,7 +446,11 @@ func r2(c *core.Ctx) {
 			ci := lf.b.Pkg.TypesInfo
 			arg := lf.e
 			afterFull := lf.gated
-			if v, isConst := core.IntConst(ci, arg); isConst {
+			v, isConst := core.IntConst(ci, arg)
+			if lf.zero {
+				v, isConst = 0, true
+			}
+			if isConst {
 				if v == 0 && !afterFull {
 					c.Okf(rule, key, arg.Pos(), "ACK 0 while the full sync is still running")
 				} else {
@@ -499,6 +536,20 @@ func r2(c *core.Ctx) {
 			}
 		}
 	}
+	if viaWrite {
+		// the count returned by Write(p[:n]) equals n whenever Write reported no error (io.Writer contract)
+		if o, ok := c03.SoleOrigin(info, copyFn.Decl.Body, stripConv(info, addCall.Args[0])); ok {
+			if wc, ok := ast.Unparen(o.Expr).(*ast.CallExpr); ok && len(wc.Args) == 1 {
+				arg := wc.Args[0]
+				if ao, ok := c03.SoleOrigin(info, copyFn.Decl.Body, arg); ok && ao.Expr != nil && ao.Op == 0 && !ao.Range && ao.Res <= 0 {
+					arg = ao.Expr
+				}
+				if se, ok := ast.Unparen(arg).(*ast.SliceExpr); ok && se.Low == nil && se.High != nil && c03.IsObj(info, nObj)(se.High) {
+					okN = true
+				}
+			}
+		}
+	}
 	if okN {
 		c.Okf(rule, "copy-counter/adds-read-length", addCall.Pos(), "the counter advances by the n of this iteration's Read")
 	} else if viaWrite || len(addCall.Args) != 1 || !core.Mentions(info, addCall.Args[0], nObj) && !isLenCall(info, stripConv(info, addCall.Args[0])) {
@@ -551,7 +602,17 @@ func r2(c *core.Ctx) {
 		c.Undecidedf(rule, "copy-counter/after-write", addCall.Pos(), "no Write(p[:n]) of the bytes just read")
 	} else {
 		wp, _ := g.Find(write)
-		if dom, _ := g.Dominated(ap, func(m ast.Node) bool { return m == wp.Node() }); dom {
+		// every path to the count passes the write, not counting branches that say the Read failed
+		errObj := core.ObjOf(info, read.Lhs[1])
+		wfl := c03.NewFlow(g)
+		readFailed := wfl.Edge(func(ft cfgq.Fact) bool {
+			eq, ok := c03.EqFact(ft, c03.IsObj(info, errObj), func(x ast.Expr) bool { return core.IsNil(info, x) })
+			return ok && !eq
+		})
+		an := ap.Node()
+		skip := g.Path(cfgq.Query{From: rp, After: true, Avoid: func(m ast.Node) bool { return m == wp.Node() }, AvoidEdge: readFailed,
+			Target: func(m ast.Node) bool { return m == an }})
+		if skip == nil {
 			c.Okf(rule, "copy-counter/after-write", addCall.Pos(), "bytes are counted only after they were handed to the pipe")
 		} else {
 			c.Undecidedf(rule, "copy-counter/after-write", addCall.Pos(), "bytes can be counted before they were handed to the pipe: not the known copy-then-count order")
@@ -563,6 +624,7 @@ type ackLeaf struct {
 	e     ast.Expr
 	b     c03.MBody
 	gated bool // evaluated under `case <-ds.WaitFull:` (the full sync is done)
+	zero  bool // the zero value of a variable declared without initialiser
 }
 
 func declBody(c *core.Ctx, fd *ast.FuncDecl) (c03.MBody, bool) {
@@ -590,7 +652,7 @@ func ackLeaves(c *core.Ctx, b c03.MBody, e ast.Expr, at ast.Node, gated bool, de
 		}
 	}
 	e = stripConv(info, e)
-	leaf := []ackLeaf{{e, b, gated}}
+	leaf := []ackLeaf{{e: e, b: b, gated: gated}}
 	if depth == 0 {
 		return leaf
 	}
@@ -618,6 +680,7 @@ func ackLeaves(c *core.Ctx, b c03.MBody, e ast.Expr, at ast.Node, gated bool, de
 		var out []ackLeaf
 		for _, o := range c03.Origins(info, b.Decl.Body, x) {
 			if o.Zero {
+				out = append(out, ackLeaf{e: x, b: b, gated: gated, zero: true})
 				continue
 			}
 			if o.Expr == nil || o.Op != 0 || o.Range || o.Res > 0 || ast.Unparen(o.Expr) == ast.Expr(x) {
